@@ -285,6 +285,22 @@ Definition rop_body (o : rop) : list (instr rstore bool) :=
                            (l || existsb (fun f => negb (mem f (r_disk s))) (r_reg s))%bool)]
   end.
 
+(* B5. copy-on-write tool configuration (internal/binutils/binutils.go:72 get, :85 update): get
+   initialises the representation lazily, update replaces it by a modified copy; each is ONE section
+   on the store (representation, ghost: number of updates that have run); local = what get returned *)
+Section Cow.
+  Variable Rep : Type.
+  Variable dflt : Rep.                       (* initTools(r, "") *)
+  Inductive cwop := CwGet | CwUpd (g : Rep -> Rep).
+  Definition cw_cur (s : option Rep * nat) : Rep := match fst s with Some b => b | None => dflt end.
+  Definition cw_body (o : cwop) : list (instr (option Rep * nat) (option Rep)) :=
+    match o with
+    | CwGet => [fun s _ => ((Some (cw_cur s), snd s), Some (cw_cur s))]
+    | CwUpd g => [fun s l => ((Some (g (cw_cur s)), S (snd s)), l)]
+    end.
+End Cow.
+Arguments CwGet {Rep}. Arguments CwUpd {Rep}. Arguments cw_body {Rep}. Arguments cw_cur {Rep}.
+
 (* ------------------------------------------------------------------------------------------ *)
 (* Part C: newTempFile (internal/driver/tempfile.go:25).  Directory: name -> None (absent) |
    Some None (existed before) | Some (Some i) (created by thread i).  One probe = one atomic
